@@ -331,6 +331,11 @@ class Unit:
                 rel, rest = arg.split(None, 1)
                 a, b = re.findall(r'"([^"]*)"', rest)
                 self.forwards.append((rel, a, b, where))
+            elif name == "trait":
+                rel, nm = arg.split()[:2]
+                item = {"kind": "trait", "rel": rel, "name": nm, "opts": arg.split()[2:], "where": where, "clauses": []}
+                self.items.append(item)
+                loop = None
             elif name in ("struct", "enum", "const"):
                 rel, nm = arg.split()[:2]
                 opts = arg.split()[2:]
@@ -538,6 +543,30 @@ class Gen:
         self.functions.append((f"{it['kind']} {it['name']}", it["rel"], hashlib.sha256(src.bytes[node["s"]:node["e"]]).hexdigest(),
                                (src.line_of(node["s"]), src.line_of(node["e"]))))
 
+    def emit_trait(self, it):
+        """a trait definition, verbatim except for attributes/doc comments and type substitutions in signatures"""
+        src = Src.get(it["rel"])
+        cands = [t for t in find_items(src.tree) if t["k"] == "Trait" and t["a"]["ident"] == it["name"]]
+        if len(cands) != 1:
+            raise Inconclusive(f"lost anchor: trait {it['name']} in {it['rel']}")
+        node = cands[0]
+        ed = Edits(src, node["s"], node["e"])
+        for n in walk(node):
+            if n["k"] == "Attr":
+                ed.delete(n["s"], n["e"])
+            if n["k"] == "Type" and "text" in n["a"]:
+                for a, b in self.unit.typesubst:
+                    if norm(n["a"]["text"]) == norm(a):
+                        ed.replace(n["s"], n["e"], b, ("rule", "typesubst"))
+        mvis = re.search(rb"pub\s*\([^)]*\)", src.bytes[node["s"]:node["s"] + 40])
+        if mvis:
+            ed.replace(node["s"] + mvis.start(), node["s"] + mvis.end(), "pub", ("rule", "vis"))
+        for seg in ed.segments():
+            self.emit(*seg)
+        self.emit("\n", ("glue",))
+        self.functions.append((f"trait {it['name']}", it["rel"], hashlib.sha256(src.bytes[node["s"]:node["e"]]).hexdigest(),
+                               (src.line_of(node["s"]), src.line_of(node["e"]))))
+
     # ---- a single expression of a function that is out of reach, wrapped as a function of its own -------
     def emit_expr(self, it):
         i0 = len(self.segs)
@@ -642,6 +671,11 @@ class Gen:
             ed.replace(sig["s"] + m.end() - len(fn["a"]["ident"]), sig["s"] + m.end(), as_name[0], ("rule", "rename"))
             if free and impl is not None and impl["a"].get("generics"):
                 ed.insert(sig["s"] + m.end(), "__vac" + impl["a"]["generics"], ("rule", "rename"))
+        if out is not None and not it.get("rettype"):
+            for a, b in self.unit.typesubst:
+                if norm(out["a"]["text"]) == norm(a):
+                    it = dict(it)
+                    it["rettype"] = b
         if it.get("rettype") and out is not None:
             ed.replace(out["s"], out["e"], it["rettype"], ("rule", "rettype"))
             out = dict(out)
@@ -710,7 +744,12 @@ class Gen:
         # -- wrap in impl header
         if "free" in it["opts"]:
             impl = None
-        if impl is not None and impl["k"] == "Impl":
+        if "inherent" in it["opts"] and impl is not None:
+            impl = dict(impl)
+            impl["_inherent"] = True
+        open_hdr = it.get("_open", True) or self.vac
+        close_hdr = it.get("_close", True) or self.vac
+        if impl is not None and impl["k"] == "Impl" and open_hdr:
             hdr = src.text(impl["s"], int(impl["a"]["brace_s"]))
             # strip attributes/doc comments preceding 'impl'
             i = hdr.rfind("impl")
@@ -718,10 +757,13 @@ class Gen:
             hdr = hdr[j.start():] if j else hdr[i:]
             for a, b in self.unit.typesubst:
                 hdr = hdr.replace(a, b)
+            if impl.get("_inherent"):
+                # `inherent`: the method of a trait impl is emitted as an inherent method (trait dispatch is dropped)
+                hdr = "impl " + impl["a"]["self_ty"]
             self.emit(hdr.strip() + " {\n", ("src-header", it["rel"], impl["s"]))
         for seg in ed.segments():
             self.emit(*seg)
-        if impl is not None and impl["k"] == "Impl":
+        if impl is not None and impl["k"] == "Impl" and close_hdr:
             self.emit("\n}\n", ("glue",))
         else:
             self.emit("\n", ("glue",))
@@ -1359,6 +1401,25 @@ class Gen:
         for u in self.unit.uses:
             p = os.path.join(VERIF, "contracts", u)
             self.emit(open(p).read() + "\n", ("file", u))
+        # consecutive @fn items of the same trait impl are emitted inside ONE impl block
+        fnitems = self.unit.items
+        for idx, it in enumerate(fnitems):
+            if it["kind"] != "fn" or "free" in it["opts"] or "inherent" in it["opts"] or it["external"] and it.get("imported_from"):
+                continue
+            try:
+                srcx = Src.get(it["rel"])
+                implx, _ = find_fn(srcx, it["name"])
+            except Inconclusive:
+                continue
+            it["_implkey"] = (it["rel"], implx["s"]) if implx is not None and implx["k"] == "Impl" and "trait" in implx["a"] else None
+        for idx, it in enumerate(fnitems):
+            k = it.get("_implkey")
+            if k is None:
+                continue
+            prev = fnitems[idx - 1].get("_implkey") if idx > 0 else None
+            nxt = fnitems[idx + 1].get("_implkey") if idx + 1 < len(fnitems) else None
+            it["_open"] = prev != k
+            it["_close"] = nxt != k
         for it in self.unit.items:
             if it["kind"] == "raw":
                 if it.get("only") and self.prop is not None and self.prop not in it["only"]:
@@ -1366,6 +1427,8 @@ class Gen:
                 self.emit(it["text"] + "\n", ("raw", it["tag"]))
             elif it["kind"] in ("struct", "enum", "const"):
                 self.emit_type(it)
+            elif it["kind"] == "trait":
+                self.emit_trait(it)
             elif it["kind"] == "expr":
                 self.emit_expr(it)
             elif it["kind"] == "fn":
